@@ -185,6 +185,15 @@ func callMenu() []callT {
 		{"Url(either group)", func() []interface{} {
 			return []interface{}{"http://h/p?k=&j=&a=1", valid.RM{"k": "either=1", "j": "either=1"}}
 		}, func(a []interface{}) (string, []string) { return errText(valid.Url(a[0].(string), a[1].(valid.RM))), nil }, nil},
+		// a rule list with empty entries, handed over as a slice: the caller's slice stays as it is
+		{"Var(rule slice with empty entries)", func() []interface{} {
+			return []interface{}{7, []string{"required", "", "to=1~3|too big", "", "noeq=7|seven"}}
+		}, func(a []interface{}) (string, []string) { return errText(valid.Var(a[0], a[1].([]string)...)), nil }, nil},
+		{"RM.Set(rule slice with empty entries) + Map", func() []interface{} {
+			return []interface{}{map[string]int{"k": 7}, []string{"", "to=1~3|too big", "", "noeq=7|seven", ""}}
+		}, func(a []interface{}) (string, []string) {
+			return errText(valid.Map(a[0], valid.NewRule().Set("k", a[1].([]string)...))), nil
+		}, nil},
 		// two patterns that agree up to an escaped quote
 		{"Var(re with escaped quote, a-c)", func() []interface{} { return []interface{}{"it's abc", []string{"re='^it\\'s [a-c]+$'|must be a-c"}} },
 			func(a []interface{}) (string, []string) { return errText(valid.Var(a[0], a[1].([]string)...)), nil },
